@@ -1405,6 +1405,73 @@ fn shared_group_buffer_full_backpressure_forwards_each_message_once() {
     report(name, "C17", "3 strategies x 1..2 members x backlogs 150,199,200,201,250,450 published while no member reads", cases, fail);
 }
 
+/// C08 + C17: what keeps a client a member of its shared group — a persistent member is a member again after its session
+/// resumes (without re-subscribing), and unsubscribing from some OTHER filter does not take a client out of a group
+// @native props=C17,C08 tier=quick fn=Router::{handle_new_connection,handle_disconnection,handle_device_payload(Unsubscribe)}+SharedGroup
+#[test]
+fn shared_group_membership_survives_session_resume_and_unrelated_unsubscribe() {
+    let name = "rumqttd::Router#shared_group_membership_survives_resume_and_unrelated_unsubscribe";
+    let mut cases = 0u64;
+    let mut fail: Option<String> = None;
+    'outer: for strategy in [Strategy::RoundRobin, Strategy::Sticky, Strategy::Random] {
+        for q in 0..2u8 {
+            for scenario in 0..3u8 {
+                for alone in [true, false] {
+                    cases += 1;
+                    let what = ["a (persistent) loses its link and reconnects with clean-session off", "a unsubscribes from an unrelated plain filter x/y it also held", "a unsubscribes from a different shared filter $share/g/other of the same share name"][scenario as usize];
+                    let desc = format!("strategy {:?}: a {}in $share/g/w/+ (QoS {}); {}; then 6 publishes on w/1", strategy, if alone { "alone " } else { "and b " }, q, what);
+                    let mut r = Router::new(0, cfg(1024 * 1024, 10, strategy.clone()));
+                    let p = connect(&mut r, "p", true).unwrap();
+                    let mut a = connect(&mut r, "a", false).unwrap();
+                    let b = connect(&mut r, "b", true).unwrap();
+                    send(&mut r, &a, vec![subscribe(1, &[("$share/g/w/+", q), ("x/y", 0), ("$share/g/other", 0)])]);
+                    if !alone {
+                        send(&mut r, &b, vec![subscribe(1, &[("$share/g/w/+", q)])]);
+                    }
+                    let _ = drain(&mut r, &a);
+                    let _ = drain(&mut r, &b);
+                    match scenario {
+                        0 => {
+                            r.events(a.id, Event::Disconnect);
+                            settle(&mut r);
+                            a = connect(&mut r, "a", false).unwrap();
+                        }
+                        1 => send(&mut r, &a, vec![unsubscribe(2, &["x/y"])]),
+                        _ => send(&mut r, &a, vec![unsubscribe(2, &["$share/g/other"])]),
+                    }
+                    let _ = drain(&mut r, &a);
+                    let mut got_a: Vec<String> = vec![];
+                    let mut got_b: Vec<String> = vec![];
+                    for k in 0..6 {
+                        send(&mut r, &p, vec![publish("w/1", q, if q == 0 { 0 } else { 50 + k as u16 }, &format!("{}", k), false)]);
+                        got_a.extend(receive_all(&mut r, &a).into_iter().map(|g| g.1));
+                        got_b.extend(receive_all(&mut r, &b).into_iter().map(|g| g.1));
+                    }
+                    got_a.extend(receive_all(&mut r, &a).into_iter().map(|g| g.1));
+                    got_b.extend(receive_all(&mut r, &b).into_iter().map(|g| g.1));
+                    let mut all: Vec<usize> = got_a.iter().chain(got_b.iter()).map(|x| x.parse().unwrap()).collect();
+                    all.sort();
+                    if all != (0..6).collect::<Vec<usize>>() {
+                        fail = Some(format!("input=[{}] detail=[a got {:?}, b got {:?}: together not exactly the 6 messages, each once]", desc, got_a, got_b));
+                        break 'outer;
+                    }
+                    // a is still a member: alone it gets everything; with round robin and two members it gets its share
+                    let a_must_get = alone || matches!(strategy, Strategy::RoundRobin);
+                    if a_must_get && got_a.is_empty() {
+                        fail = Some(format!("input=[{}] detail=[a received nothing (b got {:?}) although it is still subscribed through the group]", desc, got_b));
+                        break 'outer;
+                    }
+                    if alone && !got_b.is_empty() {
+                        fail = Some(format!("input=[{}] detail=[b, not a member, got {:?}]", desc, got_b));
+                        break 'outer;
+                    }
+                }
+            }
+        }
+    }
+    report(name, "C17,C08", "3 strategies x QoS 0/1 x {session resume, unsubscribe of an unrelated plain filter, unsubscribe of another shared filter of the same share name} x member alone / with a second member", cases, fail);
+}
+
 /// C17: membership changes never lose or duplicate messages — a member that repeated its group subscription and then
 /// leaves, and a member that joins while the group has an unforwarded backlog
 // @native props=C17 tier=quick fn=SharedGroup::{add_client,remove_client}+Router::{prepare_filter,handle_disconnection,forward_device_data}
